@@ -131,6 +131,47 @@ Theorem C18_converters_agree : forall (names : list string) (nsp : bool) (v : ns
 Proof. exact converters_agree. Qed.
 Print Assumptions C18_converters_agree.
 
+(* ---- BY NAME: `names` in any order / any subset, dtypes with fields in any order ------------------- *)
+(* any structured array, any list of existing field names: column j of live_points_to_array / entry j of
+   live_points_to_dict is the column stored under names[j] *)
+Theorem C18_to_array_by_name : forall (x : sarr) (qn : list string),
+  (forall n, In n qn -> In n (s_names x)) ->
+  exists idx, lp_to_array x qn = Ok (map (fun r => map (fun i => nth i r vnan) idx) (s_rows x))
+              /\ lp_to_dict x qn = Ok (combine qn (map (fun i => col_at i (s_rows x)) idx))
+              /\ Forall2 (fun n i => nth i (s_names x) EmptyString = n /\ i < length (s_names x)) qn idx.
+Proof. exact to_array_by_name. Qed.
+Print Assumptions C18_to_array_by_name.
+
+(* live points holding the data a, read back under ANY order / subset qn of the parameter names:
+   column j is the data column of qn[j] (value under name k after = value under k before) *)
+Theorem C18_roundtrip_by_name : forall (names : list string) (nsp : bool) (v : nsview)
+    (a : list (list val)) (x : sarr) (qn : list string),
+  NoDup (dt_names names nsp v) -> wf_rows names a -> lp_of names nsp v a x ->
+  (forall n, In n qn -> In n names) ->
+  lp_to_array x qn
+  = Ok (map (fun r => map (fun n => match index_of n names with Some i => nth i r vnan | None => vnan end) qn) a).
+Proof. exact roundtrip_by_name. Qed.
+Print Assumptions C18_roundtrip_by_name.
+
+(* empty_structured_array(n, dtype=...) with the fields in ANY order: every non-sampling field gets ITS
+   default, every other field the default float value; with get_dtype's order this is the positional row *)
+Theorem C18_empty_dtype_by_name : forall (n : nat) (fields : list (string * kind)) (v : nsview),
+  aligned v = true -> NoDup (map fst fields) -> NoDup (ns_names v) ->
+  (forall k, In k (ns_names v) -> In k (map fst fields)) ->
+  empty_sa_dtype n fields v
+  = Ok {| s_names := map fst fields; s_kinds := map snd fields;
+          s_rows := repeat (map (fun f => field_default v (fst f)) fields) n |}
+  /\ (forall k d, In (k, d) (combine (ns_names v) (ns_defs v)) -> field_default v k = d)
+  /\ (forall k, ~ In k (ns_names v) -> field_default v k = ns_fill v).
+Proof. exact empty_dtype_by_name. Qed.
+Print Assumptions C18_empty_dtype_by_name.
+
+Theorem C18_empty_dtype_standard_order : forall (n : nat) (names : list string) (v : nsview),
+  aligned v = true -> NoDup (dt_names names true v) ->
+  empty_sa_dtype n (combine (dt_names names true v) (dt_kinds names true v)) v = empty_sa n names true v.
+Proof. exact empty_dtype_standard_order. Qed.
+Print Assumptions C18_empty_dtype_standard_order.
+
 (* ---- the unstructured view ------------------------------------------------------------- *)
 (* parameters first, all f8 (what get_dtype builds): element (r, c) of the view is addressed at
    exactly the bytes of field names[c] of row r, for every row stride and base address *)
